@@ -26,7 +26,4 @@ inductive ReachImpure (g : Graph) : Nat → Prop
   | here (n : Nat) (e : EdgeK) : (g.node n).edge = some e → e.isImpure = true → ReachImpure g n
   | step (n p : Nat) (e : EdgeK) : (g.node n).edge = some e → p ∈ g.parents n → ReachImpure g p → ReachImpure g n
 
-/-- parents have smaller indices (what `TreeNode.from_edges` builds from an acyclic edge list) -/
-def Graph.Topo (g : Graph) : Prop := ∀ n p, p ∈ g.parents n → p < n
-
 end CM
